@@ -11,6 +11,9 @@
 // The real tree is built by unmarshalling generated YAML with the package's
 // own unmarshallers and workflow.LinkChildrenToParents; updates go through the
 // exported UpdateState/UpdateStatus of the leaf roles.
+//
+// A second input form, (conc tree pre threads sched), delivers updates from several
+// goroutines under a controlled interleaving: see conc.go (harness) and sim.go (generator).
 package c11
 
 import (
@@ -120,6 +123,9 @@ func runImpl(input string) (string, error) {
 	if err != nil {
 		return "", err
 	}
+	if isConc(input) {
+		return runConc(in)
+	}
 	root, err := build(in.At(0))
 	if err != nil {
 		return "", err
@@ -227,6 +233,8 @@ func generate(tier string, r *rng.R) []fw.Case {
 	for i := 0; i < n; i++ {
 		cs = append(cs, genCase(r.Fork(), maxUpd))
 	}
+	// concurrent delivery under a controlled interleaving (conc.go)
+	cs = append(cs, generateConc(tier, r.Fork())...)
 	return cs
 }
 
@@ -234,6 +242,9 @@ func nontrivial(input, obs string) bool {
 	in, err := sx.Parse(input)
 	if err != nil {
 		return false
+	}
+	if isConc(input) {
+		return nontrivialConc(in)
 	}
 	// at least two leaves, at least one nested aggregator or >=3 leaves, and >= 3 updates
 	leaves, aggs := 0, 0
@@ -258,6 +269,9 @@ func shrinkCands(input string) []string {
 	if err != nil {
 		return nil
 	}
+	if isConc(input) {
+		return shrinkConc(in)
+	}
 	var out []string
 	ups := in.At(1)
 	for i := range ups.List {
@@ -276,14 +290,27 @@ func init() {
 		Nontrivial: nontrivial,
 		Rule: "random role trees (depth<=4, <=14 roles, task/call leaves, critical with p in {1,.9,.7,.5}) built from YAML through the " +
 			"package's unmarshallers, 0..20 (thorough 0..40) leaf state/status updates; after every update the state and status of EVERY " +
-			"role is compared with the Lean model; non-trivial = >=2 leaves, (>=2 aggregators or >=3 leaves) and >=3 updates; distinct by input text",
+			"role is compared with the Lean model; non-trivial = >=2 leaves, (>=2 aggregators or >=3 leaves) and >=3 updates; distinct by input text. " +
+			"CONCURRENT cases (tag conc): 2..4 goroutines deliver UpdateState to the real roles under a controlled interleaving (held in SendEvent " +
+			"between a role's merge and its parent's, and in GetState of every child a fold reads; lock waits observed in the goroutine dump); the " +
+			"schedule is replayed by the Lean small-step model, outcome of every entry and every role's state/status at quiescence are compared, " +
+			"Spec = never lost (every aggregator, and the root) + never invented + leaves hold what was delivered. ALL schedules of two threads on " +
+			"different critical leaves of the small trees (tag conc-exhaustive-2-threads), random trees/threads/schedules from the PRNG (conc-random); " +
+			"non-trivial = >=2 threads and >=2 schedule entries",
 		Shrink:  shrinkCands,
+		Search:  searchCases,
 		Workers: 8,
 		TrustedBase: []string{
 			"harness/props/c11 (YAML builder, tree dump)", "gopkg.in/yaml.v3 unmarshalling of the role union",
+			"harness/props/c11/conc.go: the controller (hold points, replacement of children by gated roles through reflection, " +
+				"reading 'waits for a SafeState lock' from runtime.Stack); lean Model/RoleTreeConc.lean macroStep/replay (the replay policy: not covered by a theorem, " +
+				"it only selects a fine schedule, the compared states are exec of that schedule)",
 		},
 		Assumptions: []string{
 			"event publication inside updateState/updateStatus (the.EventWriterWithTopic → DummyWriter) has no effect on the aggregation",
+			"concurrent mode: holding a goroutine inside SendEvent or inside GetState of a child does not change what the roles compute; " +
+				"the `r.state.get()` calls updateState makes for its log line and its event are reads without effect (they can only delay the thread)",
+			"concurrent mode covers state updates; concurrent STATUS updates are not exercised",
 		},
 	})
 	fw.RegisterGen(fw.GenFile{Name: "StateAlgebra.lean", Make: genAlgebra})
